@@ -47,6 +47,11 @@ def closeApiOf : List Op :=
   | [("call", "Association.close"), ("recv", "Association.readLoopCloseCh")] => progOf Gen.closeBody ++ [.waitRc]
   | _ => []
 
+def hasInfix (xs pat : List Tok) : Bool :=
+  match xs with
+  | [] => pat.isEmpty
+  | _ :: r => pat.isPrefixOf xs || hasInfix r pat
+
 def choreoOfFacts : Choreo where
   deferProg := progOf Gen.readLoopDefer
   closeProg := progOf Gen.closeBody
@@ -62,7 +67,9 @@ def choreoOfFacts : Choreo where
   wlErrCloses := (Gen.writeLoopBody.dropWhile (· != ("if{", "err != nil"))).take 3 ==
     [("if{", "err != nil"), ("call", "Association.closeNetConn"), ("break", "loop")]
   tlCw := ((armBody Gen.timerLoopSelectArms "recv Association.closeWriteLoopCh").getLast?) == some ("return", "")
-  shCw := armBody Gen.shutdownSelectArms "recv Association.closeWriteLoopCh" == [("return", "")]
+  shCw := hasArm Gen.shutdownSelectArms "recv Association.closeWriteLoopCh"
+  shCwChecks := armBody Gen.shutdownSelectArms "recv Association.closeWriteLoopCh" ==
+    [("RLock", "Association.lock"), ("RUnlock", "Association.lock"), ("if{", "!completed"), ("return", ""), ("}", ""), ("return", "")]
   shCtx := armBody Gen.shutdownSelectArms "recv ctx.Done()" == [("return", "")]
   cnHs := hasArm (armsOf "createClientWithOptionsWithContext") "recv Association.handshakeCompletedCh"
   cnRc := armBody (armsOf "createClientWithOptionsWithContext") "recv Association.readLoopCloseCh" == [("return", "")]
@@ -79,6 +86,8 @@ def choreoOfFacts : Choreo where
     || Gen.unregisterStreamBody ==
     [("Lock", "Stream.lock"), ("defer Unlock", "Stream.lock"), ("delete", "Association.streams"), ("set", "Stream.readErr"), ("signal", "Stream.readNotifier")]
   unregDeletes := Gen.unregisterStreamBody.contains ("delete", "Association.streams")
+  dlKeepsTerminal := hasInfix ((Gen.lockEvents.lookup "Stream.SetReadDeadline").getD [])
+    [("Lock", "Stream.lock"), ("if{", "s.readErr == nil"), ("set", "Stream.readErr"), ("}", ""), ("Unlock", "Stream.lock")]
   unblockCloses := Gen.unblockPendingWritesBody ==
     [("if{", "!a.blockWrite"), ("return", ""), ("}", ""), ("set", "Association.writePending"), ("close", "Association.writeNotify"), ("set", "Association.writeNotify")]
 
